@@ -1586,6 +1586,9 @@ func (db *DB) RequestWithContext(ctx context.Context, req *command.Request, xTim
 					Error: err.Error(),
 				},
 			})
+			if abortOnError(err) {
+				break
+			}
 			continue
 		}
 
